@@ -29,7 +29,8 @@ LEVEL_TEXT = ("Generated ordered dicts of 1-6 named games mixing solvable stoppi
               "compared field by field (==, including iteration counts and both diagnostic vectors) with a solo solve on "
               "a deep copy, across the three runs, and the failure bookkeeping is checked. Exploration over inputs and "
               "short histories of batch runs."
-              ' Added while validating sensitivity: twin entries - an exact copy, or a single-fault copy, of an earlier game of the same batch.')
+              ' Added while validating sensitivity: twin entries - an exact copy, or a single-fault copy, of an earlier game of the same batch.'
+              " Later rounds: entries carrying their own prune_states key, owner-flipped siblings, a memo-flushing solve before each solo reference, and one of the three orders read from an input file by the repository's reader.")
 LEVEL_NOTE = ("Trusted: solo StochasticGame(**deepcopy(g)).solve() as the reference (the solver itself is covered by "
               "C01-C06); names never end in the reserved suffix '_no_prune' (two result keys would collide by design of "
               "the naming scheme).")
